@@ -330,6 +330,93 @@ def run(ctx):
     ds = [n for n in ast.walk(rs.node) if isinstance(n, ast.Assign) and attr_chain(n.targets[0]) == ["self", "dataStream"]]
     r.idiom("C06.6", len(ds) == 1 and norm(ds[0].value).startswith("self.charEncoding[0].codec_info.streamreader(self.rawStream"),
             "decoder", rs.where, "the decoder is not built from self.charEncoding[0] over rawStream")
+    meta_rules(ctx)
+
+
+def meta_rules(ctx):
+    """C06.7: (a) the late <meta> handler asks for an encoding change for charset=..., and for http-equiv=content-type (ASCII
+    case-insensitively) with a content attribute -- and for nothing else; (b) the prescan's quoted attribute value ends at the
+    *same* quote character that opened it; (c) the content-attribute extractor skips white space after `=` before it looks
+    for a quote."""
+    from ..partition import MiniInterp, Opaque
+    r = ctx.r
+    ce, repo = ctx.ce, ctx.repo
+    r.rule("C06.7", "late meta decision table; prescan quoted values end at the opening quote; charset= value may be preceded by white space", floor=10)
+    f = repo.func("html5parser.py", "InHeadPhase.startTagMeta")
+    tok = f.params()[1]
+    cases = [
+        ("charset", {"charset": "x"}, True),
+        ("pragma-lower", {"http-equiv": "content-type", "content": "text/html; charset=x"}, True),
+        ("pragma-mixed-case", {"http-equiv": "Content-Type", "content": "text/html; charset=x"}, True),
+        ("pragma-upper", {"http-equiv": "CONTENT-TYPE", "content": "text/html; charset=x"}, True),
+        ("refresh", {"http-equiv": "refresh", "content": "5; charset=x"}, False),
+        ("content-only", {"content": "text/html; charset=x"}, False),
+        ("pragma-without-content", {"http-equiv": "content-type"}, False),
+        ("name-only", {"name": "charset", "content": "x"}, False),
+        ("empty", {}, False),
+    ]
+    for conf in ("tentative", "certain"):
+        for label, attrs, want in cases:
+            def hook(node, local, conf=conf):
+                t = norm(node)
+                if t == "self.parser.tokenizer.stream.charEncoding[1]":
+                    return conf
+                if t == "self.parser.tokenizer.stream.charEncoding":
+                    return ("x", conf)
+                return NotImplemented
+            interp = MiniInterp(ce, f.module, expr_hook=hook)
+            key = "late-meta[%s %s]" % (conf, label)
+            try:
+                res = interp.run(f.node.body, {tok: {"type": 3, "name": "meta", "data": dict(attrs), "selfClosing": False}, "self": Opaque("self")})
+            except AnalysisError as e:
+                r.idiom("C06.7", False, key, f.where, "startTagMeta not decidable for %s (%s)" % (label, str(e)[:80]))
+                continue
+            changes = [e for e in res.effects if "changeEncoding(" in e.text]
+            exp = want and conf == "tentative"
+            r.check("C06.7", bool(changes) == exp, key, f.where,
+                    "<meta %s> seen by the tree builder while the encoding is %s: html5lib %s an encoding change; the standard %s"
+                    % (" ".join("%s=%r" % kv for kv in attrs.items()), conf, "asks for" if changes else "does not ask for",
+                       "does" if exp else "does not"), {"attrs": attrs, "confidence": conf},
+                    detail={"attrs": attrs, "confidence": conf, "changeEncoding": bool(changes)})
+    # (b)
+    g = repo.func(REL, "EncodingParser.getAttribute")
+    genv = ce.local_env(g.node, g.module)
+    quoted = None
+    for n in walk_no_nested(g.node):
+        if isinstance(n, ast.If) and isinstance(n.test, ast.Compare) and isinstance(n.test.ops[0], ast.In):
+            v = ce.try_eval(n.test.comparators[0], g.module, genv)
+            if isinstance(v, (tuple, list, set, frozenset)) and set(v) == {b"'", b'"'} and any(isinstance(x, ast.While) for x in n.body):
+                quoted = n
+    if quoted is None:
+        r.idiom("C06.7", False, "prescan-quote-match", g.where, "getAttribute: quoted-value branch not found")
+    else:
+        cvar = norm(quoted.test.left)
+        opener = [norm(st.targets[0]) for st in quoted.body if isinstance(st, ast.Assign) and norm(st.value) == cvar]
+        loop = next(x for x in quoted.body if isinstance(x, ast.While))
+        closing = [n for n in ast.walk(loop) if isinstance(n, ast.If) and any(isinstance(x, ast.Return) for x in n.body)]
+        t = closing[0].test if closing else None
+        ok = bool(opener) and t is not None and isinstance(t, ast.Compare) and isinstance(t.ops[0], ast.Eq) and \
+            {norm(t.left), norm(t.comparators[0])} == {cvar, opener[0]}
+        either = t is not None and isinstance(t, ast.Compare) and isinstance(t.ops[0], ast.In)
+        r.idiom("C06.7", ok, "prescan-quote-match", "%s:%d" % (REL, quoted.lineno), "getAttribute: closing-quote test not recognised",
+                wrong=[(either, "the prescan ends a quoted attribute value at either quote character (`%s`), not at the one that opened "
+                                "it: content=\"text/html; charset='x'\"-style values are cut short and the declared encoding is missed"
+                        % (norm(t) if t is not None else ""))],
+                detail={"test": norm(t) if t is not None else None})
+    # (c)
+    h = repo.func(REL, "ContentAttrParser.parse")
+    cfg = CFG(h.node)
+    eq_tests = [x for x in cfg.stmt_nodes() if x.kind == "test" and "b'='" in norm(x.ast)]
+    q_tests = [x for x in cfg.stmt_nodes() if x.kind == "test" and "currentByte in" in norm(x.ast)]
+    if len(eq_tests) != 1 or len(q_tests) != 1:
+        r.idiom("C06.7", False, "content-charset-skip-space", h.where, "ContentAttrParser.parse: `=` / quote tests not found")
+    else:
+        def is_skip(x):
+            return any(norm(c.func) == "self.data.skip" and not c.args for c in node_calls(x))
+        par = cfg.reach_backward([q_tests[0]], is_skip)
+        r.check("C06.7", eq_tests[0].id not in par, "content-charset-skip-space", "%s:%d" % (REL, q_tests[0].ast.lineno),
+                "ContentAttrParser.parse tests for a quote directly after `=` without skipping white space first: "
+                "`charset= \"utf-8\"` yields an empty / wrong label", detail={"skip_before_quote_test": eq_tests[0].id not in par})
 
 
 def thorough(ctx):
@@ -346,6 +433,12 @@ def mutants():
                 "        charEncoding = lookupEncoding(self.transport_encoding), \"certain\"\n"
                 "        if charEncoding[0] is not None:\n            return charEncoding\n\n")
     return [
+        T("late-meta-case-sensitive", "html5parser.py", "                  attributes[\"http-equiv\"].lower() == \"content-type\"):", "                  attributes[\"http-equiv\"] == \"content-type\"):", "C06.7"),
+        T("late-meta-any-content", "html5parser.py", "            elif (\"content\" in attributes and\n                  \"http-equiv\" in attributes and\n                  attributes[\"http-equiv\"].lower() == \"content-type\"):",
+          "            elif \"content\" in attributes:", "C06.7"),
+        T("prescan-either-quote", REL, "                if c == quoteChar:", "                if c in (b\"'\", b'\"'):", "C06.7"),
+        T("content-no-skip-after-eq", REL, "            self.data.position += 1\n            self.data.skip()\n            # Look for an encoding between matching quote marks",
+          "            self.data.position += 1\n            # Look for an encoding between matching quote marks", "C06.7"),
         T("swap-override-transport", REL, bl_over + bl_trans, bl_trans + bl_over, "C06.1"),
         T("meta-certain", REL, 'charEncoding = self.detectEncodingMeta(), "tentative"', 'charEncoding = self.detectEncodingMeta(), "certain"', "C06.1"),
         T("parent-utf16", REL, 'if charEncoding[0] is not None and not charEncoding[0].name.startswith("utf-16"):', 'if charEncoding[0] is not None:', "C06.1"),
